@@ -29,6 +29,7 @@ CONSTANTS
 INVARIANTS
   TypeOK NoPanic ParkedCountOK CondvarOK NoStuck LastParkedUnique FlagProtocol
   StageOrderOK OpenPrefix AllClosedAtGCEnd PacketConservation PacketExactlyOnce RunOnlyOpen
+  SentinelAfterClosure
   STWOnlyWhenStopped BlockedUntilEnd WorldStoppedOnlyInGC
   SurrenderOK ExitClean GoalPriority ExitOnlyOnExitGoal ParkedZeroWhenAllExited
 CHECK_DEADLOCK FALSE
